@@ -145,7 +145,8 @@ def dfxp_strategy(tier):
             cues.append({"lines": lines, "br": draw(st.sampled_from(["<br/>", "<br />", "<br></br>", "<br/>\n        "])),
                          "pretty": draw(st.booleans()),
                          "lead": draw(st.sampled_from(["\n        ", "\n        ", " \n        ", "\t\n  "]))})
-        return {"fmt": "dfxp", "reuse": draw(st.integers(0, 3)) == 0, "cues": cues}
+        return {"fmt": "dfxp", "reuse": draw(st.integers(0, 3)) == 0, "cues": cues,
+                "xml_space": draw(st.sampled_from([None, None, None, "div", "body"]))}
     return build()
 
 
@@ -208,7 +209,15 @@ def check_dfxp(case, rec):
         if c["pretty"]:
             inner = c.get("lead", "\n        ") + inner + "\n      "
         ps.append({"attrs": [("begin", f"00:00:{i:02d}.000"), ("end", f"00:00:{i:02d}.900")], "inner": inner})
-    doc = S.dfxp_doc([{"lang": "en", "ps": ps}], tt_lang="en")
+    if case.get("xml_space"):
+        # the nearest xml:space decides: "default" on each paragraph overrides an outer "preserve"
+        for p_ in ps:
+            p_["attrs"] = list(p_["attrs"]) + [("xml:space", "default")]
+        doc = S.dfxp_doc([{"lang": "en", "ps": ps, "attrs": [("xml:space", "preserve")]}], tt_lang="en",
+                         body_attrs=[("xml:space", "preserve")] if case["xml_space"] == "body" else ())
+        rec.label("xml-space-preserve-outside")
+    else:
+        doc = S.dfxp_doc([{"lang": "en", "ps": ps}], tt_lang="en")
     if _skip_known(case, rec, "dfxp"):
         return
     with must("DFXPReader.read"):
@@ -393,7 +402,7 @@ def webvtt_strategy(tier):
                 runs = draw(st.lists(run(), min_size=1, max_size=3))
                 seps = [draw(st.sampled_from(["", " ", " "])) for _ in runs]
                 lines.append({"runs": runs, "seps": seps})
-            cues.append({"lines": lines})
+            cues.append({"lines": lines, "ws_line": draw(st.sampled_from([None, None, None, " ", "\t", "  "]))})
         return {"fmt": "webvtt", "reuse": draw(st.integers(0, 3)) == 0, "cues": cues,
                 "eol": draw(st.sampled_from(["\n", "\n", "\r\n", "\r"]))}
     return build()
@@ -406,6 +415,11 @@ def check_webvtt(case, rec):
                      "settings": None, "lines": [_line_enc(l).strip() for l in c["lines"]]})
     if any("-->" in ln or not ln for c in cues for ln in c["lines"]):
         return
+    for c, spec in zip(cues, case["cues"]):
+        if spec.get("ws_line") and len(c["lines"]) >= 2:
+            # a payload line of blanks only is part of the cue (only an EMPTY line ends it)
+            c["lines"].insert(1, spec["ws_line"])
+            rec.label("whitespace-only-payload-line")
     doc = S.webvtt_doc(cues, eol=case.get("eol", "\n"))
     if _skip_known(case, rec, "webvtt"):
         return
